@@ -388,7 +388,10 @@ type ReadSched struct {
 }
 
 func GenReadSched(r *core.RNG) ReadSched {
-	switch r.Intn(6) {
+	switch r.Intn(7) {
+	case 6:
+		// a few Read calls (a magic number, a header), then io.Copy for the rest
+		return ReadSched{Mode: "read-then-copy", Seed: r.U64() % 1000, Max: r.Pick(1, 4, 100, 65535, 65536, 70000)}
 	case 5:
 		return ReadSched{Mode: "copy"} // the caller drains with io.Copy into a plain writer (uses WriteTo if the reader has one)
 	case 4:
@@ -419,7 +422,28 @@ func (s *plainSink) Write(p []byte) (int, error) {
 
 // Drain reads r to its terminal error under the schedule.
 func Drain(r io.Reader, rs ReadSched, res *DecResult, onRead func(released int)) {
-	if rs.Mode == "copy" {
+	if rs.Mode == "read-then-copy" {
+		// one or two Reads first
+		rng := core.NewRNG(rs.Seed ^ 0x7c)
+		buf := make([]byte, rs.Max+1)
+		k := 1 + rng.Intn(2)
+		for i := 0; i < k; i++ {
+			n, err := r.Read(buf[:1+rng.Intn(rs.Max)])
+			res.Reads++
+			res.Released = append(res.Released, buf[:n]...)
+			if onRead != nil {
+				onRead(len(res.Released))
+			}
+			if err != nil {
+				res.Err = err
+				break
+			}
+		}
+		if res.Err == nil {
+			rs.Mode = "copy"
+		}
+	}
+	if rs.Mode == "copy" && res.Err == nil {
 		// io.Copy reports a clean end of stream as a nil error
 		_, err := io.Copy(&plainSink{res, onRead}, r)
 		if err == nil {
